@@ -410,7 +410,7 @@ def run(chk):
     r55.require(60, "table entries")
     missing = sorted(set(STRING_OPCODE_BIN) - set(table))
     if missing:
-        r55.note("tokens not decoded by to_operator (take the function route, agreeing by construction): %s" % missing)
+        r55.note("tokens not decoded by to_operator (take the function route; values agree by construction, error reporting is R5.7's business): %s" % missing)
 
     # ------------------------------------------------------------------ R5.6 width / signedness tables
     r56 = chk.rule("R5.6", "Common_Types tables: each case t_X reads the stored value as the C++ type X names; get_common_type maps every arithmetic type to its size/signedness class",
@@ -466,7 +466,14 @@ def run(chk):
     r57 = chk.rule("R5.7", "all evaluation routes reach Boxed_Number::oper with the decoded opcode; arithmetic_error is preserved by Binary/Fold_Right and reported as eval_error by Equation only",
                    "the four evaluation routes agree and a trap surfaces as the documented exception type")
     routes(prog, chk, r57)
-    r57.require(8, "routes")
+    # the clause "compound assignment reports a trap as eval_error" holds only for tokens the equation node can decode:
+    # every compound-assignment token of the kernel must be in to_operator's table
+    table57 = to_operator_table(prog, to_op[0])
+    for tok in sorted(t for t in STRING_OPCODE_BIN if t.endswith("=") and t not in ("==", "!=", "<=", ">=", "=")):
+        r57.ob("Operators::to_operator decodes the compound assignment %r (so that the equation node's arithmetic path, which reports traps as eval_error, applies)" % tok,
+               tok in table57, to_op[0].where, to_op[0].q,
+               "%r is not decoded: `x %s 0` takes the dispatched function route and surfaces arithmetic_error while its siblings report eval_error" % (tok, tok))
+    r57.require(18, "routes")
 
 
 # =============================================================================== helpers
